@@ -134,8 +134,8 @@ class Live(object):
             L.append('plugin\t%d\t%s\t%s\t%d\t%s' % (i, '-' if parent is None else parent, wire.enc(name), thr, wire.enc_list(methods)))
         d = self.cb.Commands._disabled.d
         for k in list(d.keys()):
-            (ev, ps) = d[k]
-            L.append('disabled\t%s\t%d\t%s' % (wire.enc(self.cb.canonicalName(k)), bool(ev), wire.enc_list(sorted(ps))))
+            (ev, ps) = self.entry(d[k])
+            L.append('disabled\t%s\t%d\t%s' % (wire.enc(self.cb.canonicalName(k)), ev, wire.enc_list(ps)))
         dp = self.conf.supybot.commands.defaultPlugins
         for name, child in dp._children.items():
             if name == 'importantPlugins':
@@ -196,6 +196,15 @@ class Live(object):
         return dict(msgs=[(m.command, m.args[0], m.args[1]) for m in out if m.command in ('PRIVMSG', 'NOTICE')],
                     calls=list(calls), body_calls=list(b.world.vt_c14_log), ignored=bool(msg.tagged('ignored')), crash=crash)
 
+    @staticmethod
+    def entry(v):
+        """(disabled everywhere?, plugins) of one store entry, whatever shape the store gives it"""
+        if v is None:
+            return True, []
+        if isinstance(v, (list, tuple)) and len(v) == 2 and isinstance(v[0], bool):
+            return v[0], sorted(v[1])
+        return False, sorted(v)
+
     def owner_cmd(self, text):
         """run a real Owner command as the owner; -> 'ok' | 'err' | other reply text"""
         b = self.b
@@ -211,7 +220,7 @@ class Live(object):
 
     def store_dump(self):
         d = self.cb.Commands._disabled.d
-        ents = sorted((self.cb.canonicalName(k), bool(d[k][0]), sorted(d[k][1])) for k in list(d.keys()))
+        ents = sorted((self.cb.canonicalName(k),) + self.entry(d[k]) for k in list(d.keys()))
         return ents, sorted(self.conf.supybot.commands.disabled())
 
     def find(self, args):
